@@ -61,7 +61,8 @@ pub enum C02Case {
         #[serde(default)]
         order: Vec<u16>,
         /// further unsigned digests in the signature header: bit 0 MD5 present, bit 1 SHA1
-        /// present, bit 2 MD5 recorded wrongly, bit 3 SHA1 recorded wrongly
+        /// present, bit 2 MD5 recorded wrongly, bit 3 SHA1 recorded wrongly, bits 4-5 how wrong digests
+        /// are wrong (0 other digest, 1 strict prefix of the true one, 2 true one plus extra bytes)
         #[serde(default)]
         more_digests: u8,
     },
@@ -353,7 +354,7 @@ impl Property for C02 {
         vec!["the converse (a correctly signed package must verify) is not part of the statement and not asserted here (C10 covers it)".into()]
     }
     fn required_labels(&self, _t: Tier) -> Vec<&'static str> {
-        vec!["base-legacy-tag-only", "base-header+payload-tag", "recording", "returned-ok", "verifier-consulted", "openpgp-zero-entries", "openpgp-wrong-type", "legacy-pgp-tag", "bitflip-differs", "bitflip-fixup", "bitflip-sig-rebuilt", "appended-entry-differs", "appended-entry-sig-rebuilt", "all-accepted-but-digest-wrong", "permuted-sig-index"]
+        vec!["base-legacy-tag-only", "base-header+payload-tag", "recording", "returned-ok", "verifier-consulted", "openpgp-zero-entries", "openpgp-wrong-type", "legacy-pgp-tag", "bitflip-differs", "bitflip-fixup", "bitflip-sig-rebuilt", "appended-entry-differs", "appended-entry-sig-rebuilt", "all-accepted-but-digest-wrong", "permuted-sig-index", "wrong-digest-of-other-length"]
     }
     fn phases(&self, tier: Tier) -> Vec<Phase<C02Case>> {
         let mut flips: Vec<(u8, u32)> = vec![];
@@ -370,7 +371,7 @@ impl Property for C02 {
         vec![
             Phase::Random {
                 name: "recording-verifier",
-                cases: tier.pick(200_000, 4_000_000),
+                cases: tier.pick(200_000, 20_000_000),
                 strat: Arc::new(|| {
                     (
                         proptest::collection::vec(any::<u8>(), 0..24),
@@ -381,7 +382,7 @@ impl Property for C02 {
                         prop::bool::weighted(0.85),
                         proptest::option::weighted(0.5, prop::bool::weighted(0.85)),
                         (prop_oneof![3 => Just(vec![true; 6]), 2 => proptest::collection::vec(any::<bool>(), 0..5), 1 => proptest::collection::vec(prop::bool::weighted(0.8), 4)], proptest::collection::vec(0u8..5, 6)),
-                        (prop_oneof![1 => Just(vec![]), 1 => proptest::collection::vec(0u16..8, 8)], prop_oneof![2 => Just(0u8), 2 => Just(3u8), 1 => 0u8..16]),
+                        (prop_oneof![1 => Just(vec![]), 1 => proptest::collection::vec(0u16..8, 8)], prop_oneof![2 => Just(0u8), 2 => Just(3u8), 2 => 0u8..64]),
                     )
                         .prop_map(|(payload, openpgp, rsa, dsa, pgp, digests_ok, payload_digest, (answers, reject_kinds), (order, more_digests))| C02Case::Recording { payload, openpgp, rsa, dsa, pgp, digests_ok, payload_digest, answers, reject_kinds, order, more_digests })
                         .boxed()
@@ -395,7 +396,7 @@ impl Property for C02 {
             },
             Phase::Random {
                 name: "appended-entries",
-                cases: tier.pick(30_000, 600_000),
+                cases: tier.pick(30_000, 3_000_000),
                 strat: Arc::new(move || {
                     (0..nb.max(1), prop_oneof![3 => proptest::sample::select(vec![tags::POSTIN, tags::PREIN, tags::VENDOR, tags::URL, tags::NAME, tags::PAYLOADCOMPRESSOR, 9999u32, 1u32 << 20]), 1 => any::<u32>()], proptest::collection::vec(any::<u8>(), 0..24), 0u8..3)
                         .prop_map(|(base, tag, data, mode)| C02Case::Appended { base, tag, data, mode })
@@ -404,7 +405,7 @@ impl Property for C02 {
             },
             Phase::Random {
                 name: "multi-byte-edits",
-                cases: tier.pick(100_000, 2_000_000),
+                cases: tier.pick(100_000, 10_000_000),
                 strat: Arc::new(move || {
                     (0..nb.max(1), proptest::collection::vec(crate::gen::mutate::mutation(), 1..4), prop_oneof![Just(3u8), Just(4u8), Just(6u8)], 0u8..3)
                         .prop_map(|(base, muts, region, mode)| C02Case::Mutated { base, muts, region, fixup: mode == 1, rebuild_sig: mode == 2 })
@@ -515,17 +516,37 @@ fn recording(o: &mut Outcome, payload: &[u8], openpgp: &Option<SigVal>, rsa: &Op
     main.sort_by_key(|e| e.0);
     let hdr = fmt::layout(&main, Some(fmt::TAG_HEADERIMMUTABLE));
     let hb = hdr.bytes();
-    let mut sig = vec![(tags::SIG_SHA256, Val::s(&if digests_ok { digests::sha256_hex(&[&hb]) } else { digests::sha256_hex(&[&hb, b"!"]) }))];
+    // how a wrongly recorded digest is wrong: another digest of the same length, a strict prefix
+    // of the true one, or the true one with something appended
+    let flavour = (more_digests >> 4) & 3;
+    if flavour != 0 {
+        o.label("wrong-digest-of-other-length");
+    }
+    let wrong_hex = |right: String, other: String| match flavour {
+        1 => right[..right.len() / 4].to_string(),
+        2 => format!("{right}00"),
+        _ => other,
+    };
+    let wrong_bin = |right: Vec<u8>, other: Vec<u8>| match flavour {
+        1 => right[..4].to_vec(),
+        2 => {
+            let mut r = right;
+            r.push(0);
+            r
+        }
+        _ => other,
+    };
+    let mut sig = vec![(tags::SIG_SHA256, Val::s(&if digests_ok { digests::sha256_hex(&[&hb]) } else { wrong_hex(digests::sha256_hex(&[&hb]), digests::sha256_hex(&[&hb, b"!"])) }))];
     for (tag, v) in [(tags::SIG_OPENPGP, openpgp), (tags::SIG_RSA, rsa), (tags::SIG_DSA, dsa), (tags::SIG_PGP, pgp)] {
         if let Some(v) = v {
             sig.push(sig_entry(tag, v));
         }
     }
     if more_digests & 1 != 0 {
-        sig.push((tags::SIG_MD5, Val::Bin(if more_digests & 4 == 0 { digests::md5_raw(&[&hb, payload]) } else { digests::md5_raw(&[&hb, payload, b"!"]) })));
+        sig.push((tags::SIG_MD5, Val::Bin(if more_digests & 4 == 0 { digests::md5_raw(&[&hb, payload]) } else { wrong_bin(digests::md5_raw(&[&hb, payload]), digests::md5_raw(&[&hb, payload, b"!"])) })));
     }
     if more_digests & 2 != 0 {
-        sig.push((tags::SIG_SHA1, Val::s(&if more_digests & 8 == 0 { digests::sha1_hex(&[&hb]) } else { digests::sha1_hex(&[&hb, b"!"]) })));
+        sig.push((tags::SIG_SHA1, Val::s(&if more_digests & 8 == 0 { digests::sha1_hex(&[&hb]) } else { wrong_hex(digests::sha1_hex(&[&hb]), digests::sha1_hex(&[&hb, b"!"])) })));
     }
     sig.sort_by_key(|e| e.0);
     // the data of the entries stays where it is; only the order of the index records varies
